@@ -164,7 +164,7 @@ def sources_stream(rep, r, n):
             img += r.uniform(50, 100) * np.exp(-((xx - x0) ** 2 + (yy - y0) ** 2) / (2 * r.choice([1.3, 2.0]) ** 2))
             pos.append((x0 + r.uniform(-0.7, 0.7), y0 + r.uniform(-0.7, 0.7)))
         if r.random() < 0.5:                                      # a close neighbour: overlapping cut-outs
-            x0, y0 = pos[0][0] + r.uniform(3, 5), pos[0][1] + r.uniform(-2, 2)
+            x0, y0 = min(pos[0][0] + r.uniform(3, 5), 41.0), min(max(pos[0][1] + r.uniform(-2, 2), 2.0), 37.0)
             img += r.uniform(50, 100) * np.exp(-((xx - x0) ** 2 + (yy - y0) ** 2) / (2 * 1.3 ** 2))
             pos.insert(1, (x0, y0))
         rs = np.random.RandomState(r.randrange(2 ** 31))
